@@ -286,8 +286,18 @@ func (w *world) enabledList(from *thread) []*thread {
 		}
 		en = append(en, t)
 	}
-	if len(en) == 0 {
-		en = low
+	if len(en) == 0 && len(low) > 0 {
+		// a draining thread only continues when nobody else can ever continue without it:
+		// sleepers will (the clock advances for them first)
+		sleepers := false
+		for _, t := range w.threads {
+			if !t.done && !t.held && t.sleeping {
+				sleepers = true
+			}
+		}
+		if !sleepers {
+			en = low
+		}
 	}
 	// canonical order: running thread first if enabled, then ascending id
 	if from != nil {
@@ -849,4 +859,13 @@ func SetExploring(v bool) {
 	if cur != nil {
 		cur.cfg.NoExplore = !v
 	}
+}
+
+// Steps returns the number of scheduling steps taken so far in the current
+// world (a logical time stamp for call/return histories).
+func Steps() int {
+	if cur == nil {
+		return 0
+	}
+	return cur.steps
 }
